@@ -20,6 +20,7 @@ package writer
 import (
 	"bytes"
 	"fmt"
+	"strconv"
 
 	jp "github.com/buger/jsonparser"
 	. "github.com/siglens/siglens/pkg/segment/utils"
@@ -66,7 +67,7 @@ func ParseRawJsonObject(currKey string, data []byte, tsKey *string,
 				parseSingleString(finalKey, tsKey, value, ple)
 			}
 		case jp.Number:
-			numVal, err := jp.ParseInt(value)
+			numVal, err := parseJsonInt(value)
 			if err != nil {
 				fltVal, err := jp.ParseFloat(value)
 				if err != nil {
@@ -91,6 +92,18 @@ func ParseRawJsonObject(currKey string, data []byte, tsKey *string,
 	}
 	err := jp.ObjectEach(data, handler)
 	return err
+}
+
+// parseJsonInt parses an integer literal into an int64. jp.ParseInt notices an
+// overflow only when a partial result gets smaller, which some 20-digit
+// literals (e.g. 82500000000000000000) never do, so anything that does not
+// obviously fit is parsed by strconv, whose range error makes the caller fall
+// back to float64.
+func parseJsonInt(value []byte) (int64, error) {
+	if len(value) > 18 {
+		return strconv.ParseInt(string(value), 10, 64)
+	}
+	return jp.ParseInt(value)
 }
 
 func parseNonJaegerRawJsonArray(currKey string, data []byte, tsKey *string,
@@ -135,7 +148,7 @@ func parseNonJaegerRawJsonArray(currKey string, data []byte, tsKey *string,
 				parseSingleString(finalKey, tsKey, value, ple)
 			}
 		case jp.Number:
-			numVal, encErr := jp.ParseInt(value)
+			numVal, encErr := parseJsonInt(value)
 			if encErr != nil {
 				fltVal, encErr := jp.ParseFloat(value)
 				if encErr != nil {
